@@ -108,7 +108,8 @@ def check_validation(model, rep):
 
 def _kind_fact(facts, name):
     for node, val in facts.facts.values():
-        if val and isinstance(node, ast.Compare) and len(node.ops) == 1 and isinstance(node.ops[0], ast.In) and src(node.left) == f'{name}.dtype.kind':
+        if isinstance(node, ast.Compare) and len(node.ops) == 1 and src(node.left) == f'{name}.dtype.kind' and \
+                ((val and isinstance(node.ops[0], ast.In)) or (not val and isinstance(node.ops[0], ast.NotIn))):
             kinds = const(node.comparators[0])
             if isinstance(kinds, str) and set(kinds) <= set('ui') and kinds:
                 return node
